@@ -23,6 +23,9 @@
 //	     (returned-after-deadline)
 //	(2)  success => RemotePeer is the dialed peer, not over an address served by another peer
 //	     (connection-to-wrong-peer); direct when force-direct (force-direct-got-relayed);
+//	(2c) usable connection: a caller answered (conn, nil) never gets a connection whose Disconnected notification
+//	     had been delivered (D's recording notifiee) before that caller's invocation stamp; a close that races
+//	     with the call is legitimate (returned-connection-closed-before-call/<tcp|quic>)
 //	(2b) a connection obtained over an address that never failed before releases every caller
 //	     attached at that instant within resolution slack + 1 s
 //	     (connection-obtained-but-caller-kept-waiting)
@@ -38,7 +41,10 @@
 //	(3d) a back-off refusal is true: not after the documented back-off length has passed since the last
 //	     failed dial (backoff-refusal-after-backoff-ended), not for a WithForceDirectDial caller unless a
 //	     request without the flag had just scheduled the address (backoff-refusal-for-force-direct)
-//	(4)  at most one hand-over of an address to a transport per generation
+//	(4)  at most one hand-over of an address to a transport per generation — except that a dead RESULT may be
+//	     replaced: the earlier dial succeeded and the connection it produced (Connected delivered after that dial
+//	     returned) had its Disconnected delivered before the second hand-over started (bf9a88d dials such an
+//	     address again for a joining request; the clause is about duplicate attempts);
 //	     (address-dialed-twice-in-generation/<kind>); only known addresses of the asked peer, on the
 //	     right transport (dialed-unknown-address, dialed-unknown-peer, wrong-transport)
 //	(5)  at every Dial start stamp: in-flight Dials per peer <= per-peer cap, FD-consuming (TCP, WS)
@@ -83,6 +89,17 @@
 // (2b) is off in this sub-stratum: with inbound connections a caller can be served from the connection table
 // while others still dial.
 //
+// "Connections vanish" stratum (1/4 of the runs without hole punching): a recording notifiee sits on D in EVERY
+// run (Connected / Disconnected stamps per connection); in this stratum D's connections are closed WHILE callers
+// are inside: by that notifiee from inside Connected (at once) or from a task started there (after 1 | 30 ms),
+// by a task closing what D lists for p0 at 1-3 drawn instants, or by p0 closing its side at those instants; p0
+// gets a cleanly served TCP address and three callers starting at one instant, and in half of these runs the
+// application re-dials from inside its Disconnected handler (up to 3 times per run, only while a round's callers
+// are inside) — a call that begins after the connection is gone and usually before the caller answered with it
+// has released the worker. Fault counter conn-closed-while-callers-inside. Other oracles under vanishing
+// connections: (2b) skips a pair when the connection A got was gone before B returned; (3), (3b), (3c), caps and
+// residue need no change (a vanished connection is not a failed dial, re-dials are bounded and waited for).
+//
 // Strata (drawn first): exactness (address sets avoid every documented dial filter, so
 // eligibility = "has a transport and not in back-off") vs filters (unspecified, link-local, own
 // listen address, same-2-tuple WebSocket/WebTransport: only the weaker claims, (3) without
@@ -120,6 +137,8 @@
 //     history: fd-cap-exceeded.replay.json (decoded trace inside; its tape predates later generator changes)
 //   - goroutine-left/other (QUIC stratum): quicreuse never released the transport a SUCCESSFUL dial went out from
 //     when the connection was closed: socket and quic-go loops lived until ConnManager.Close (ee51243)
+//   - (found by C12, armed here as (2c)) a request joining a live worker was answered with a connection closed
+//     since (bf9a88d)
 //   - all-scripts-fail-but-no-dial-error-in-time: an exiting dial worker's clearAllPeerDials wiped the
 //     jobs its successor had queued on the per-peer wait list; they were never dialed, the caller
 //     waited for its deadline (cb59e91); history: waitlist-wiped.replay.json (decoded trace inside)
@@ -156,6 +175,8 @@
 //	                                      (3 of 8 workers within 45 s: needs the coincidence AND the interleaving)
 //	m16 quic holePunch: DecreaseCount registered after the duplicate check (lead's seed C05c/2)
 //	                                   -> udp-socket-left, goroutine-left/other (every worker within seconds)
+//	m17 dial_worker: a joining request is answered with trackedDials[addr].conn although it is closed (bf9a88d
+//	    undone in a scratch worktree) -> returned-connection-closed-before-call/tcp and /quic (60 s, 4 workers)
 //	m14 dial_worker.dispatchError: the back-off clean-up deletes trackedDials by addr.String() (no-op),
 //	    the refused address stays "failed" for the worker's lifetime (lead's seeded change, scratch worktree)
 //	                                   -> backoff-refusal-after-backoff-ended, backoff-refusal-for-force-direct
@@ -1799,7 +1820,7 @@ func checkRecords(o *common.Outcome, w *world, callers []*caller, perPeerCap, fd
 					}
 				}
 			}
-			if !boundary && replaced {
+			if replaced {
 				o.Probe("address-redialed-after-its-connection-closed")
 			}
 			if !boundary && !replaced {
